@@ -1016,3 +1016,9 @@ mod sparse_swap_tick_sequence_tests {
         }
     }
 }
+
+// verification hook (feature `verif` only)
+#[cfg(feature = "verif")]
+pub fn verif_get_start_tick_indexes(whirlpool: &Account<Whirlpool>, a_to_b: bool) -> Vec<i32> {
+    get_start_tick_indexes(whirlpool, a_to_b)
+}
